@@ -58,6 +58,8 @@ public:
   static void composition(GRefIn g_in1, GRefIn g_in2, GRefOut g_out)
   {
     g_out << g_in1[0] * g_in2[1] + g_in1[1] * g_in2[0], g_in1[1] * g_in2[1] - g_in1[0] * g_in2[0];
+    // re-normalize: otherwise rounding errors in the norm accumulate over chains of compositions
+    g_out /= g_out.norm();
   }
 
   static void inverse(GRefIn g_in, GRefOut g_out) { g_out << -g_in[0], g_in[1]; }
